@@ -29,10 +29,9 @@ Outside the model (answer `Err.other`):
 * a `\uXXXX` escape of a surrogate that is not part of a high+low pair.  CPython yields a `str` with a lone
   surrogate, which is not a Unicode scalar value and so not a Lean `Char`.  The answer is given at the escape; CPython
   might still reject the text further on (`ValueError`).
-* (`Err.other` is also the out-of-fuel answer.  With the fuel `parseWith` supplies it is not reached: every recursive
-  call has consumed at least as many characters as fuel units.  This is argued, not proved; the differential harness
-  accepts `Other` only on texts that contain a surrogate escape, so a fuel shortage would show as a disagreement, and
-  the round-trip theorem shows the fuel suffices on everything the printer writes.)
+* (`Err.other` is also the out-of-fuel answer; it never decides the answer of `parseWith`/`parseString`:
+  `Proofs/JsonFuel.lean` proves that any fuel above the length of the text gives the same answer — `parseWith_fuel`,
+  `parseString_fuel` — and the differential harness accepts `Other` only on texts that contain a surrogate escape.)
 Not modelled at all: the interpreter's recursion limit (`RecursionError` for nesting deeper than ~ a thousand levels).
 
 Core Lean only; structural recursion on fuel/lists only, so the kernel can evaluate everything.
